@@ -540,7 +540,7 @@ fn universe(fl: &str, regime: &str) -> (Vec<String>, Vec<String>, Vec<String>, b
         ("cti", "mc") => (names("t", 3), names("i", 3), none(), true),
         ("cti", "small") => (names("t", 4), names("i", 4), none(), true),
         ("cti", "topics") => (names("t", MAX_CLAIM_TOPICS + 2), names("i", 3), none(), true),
-        ("cti", "issuers") => (names("t", 3), names("i", MAX_ISSUERS + 2), none(), true),
+        ("cti", "issuers") | ("cti", "dense") => (names("t", 3), names("i", MAX_ISSUERS + 2), none(), true),
         ("binder", "mc") => (names("x", 5), none(), none(), true),
         ("binder", "small") => (names("x", 6), none(), none(), true),
         ("binder", "bucket") => (names("x", 2 * binder_lib::BUCKET_SIZE + 50), none(), none(), true),
@@ -1300,7 +1300,7 @@ fn gen_cti(r: &mut StdRng, sys: &Sys, sh: &Shadow) -> Value {
     let fresh_topic = sys.u1.iter().any(|t| !sh.topics.contains(t));
     let want_topics = have_t.len() < 2 || (sys.regime == "topics" && r.gen_bool(0.6));
     if sh.grow {
-        if fresh_topic && (roll < if sys.regime == "issuers" { 8 } else { 30 } || want_topics) {
+        if fresh_topic && (roll < if sys.regime == "issuers" || sys.regime == "dense" { 8 } else { 30 } || want_topics) {
             mk("add_topic", &pick_where(r, &sys.u1, &|t| !sh.topics.contains(t)), "none", "none", &[], 0)
         } else if roll < 72 {
             mk("add_issuer", &pick_where(r, &sys.u2, &|i| !sh.issuers.contains_key(i)), "none", "none", &topic_list(r), 0)
@@ -1598,6 +1598,9 @@ fn prefill(fl: &str, regime: &str, r: &mut StdRng) -> usize {
         ("keys", "kpt") => MAX_KEYS_PER_TOPIC as usize - 2,
         ("cti", "topics") => MAX_CLAIM_TOPICS as usize - 2,
         ("cti", "issuers") => MAX_ISSUERS as usize + 1, // three topics first
+        // three topics, every issuer but the last on all of them, the registry full; then (see drive_run) the last
+        // issuer is moved onto all topics: a topic's issuer list as long as the registry allows
+        ("cti", "dense") => MAX_ISSUERS as usize + 3,
         ("modules", "cap") => MAX_MODULES as usize - 2,
         // just below / just above the first bucket boundary, or just below the second one
         ("docs", "bucket") => {
@@ -1625,6 +1628,15 @@ fn fill_op(r: &mut StdRng, sys: &Sys, sh: &Shadow, ts: i64) -> Value {
             mk("allow", &k, "t1", &pick_s(r, &sys.u3), &[], 0)
         }
         ("cti", "topics") => mk("add_topic", &pick_where(r, &sys.u1, &|t| !sh.topics.contains(t)), "none", "none", &[], 0),
+        ("cti", "dense") => {
+            if sh.topics.len() < 3 {
+                mk("add_topic", &pick_where(r, &sys.u1, &|t| !sh.topics.contains(t)), "none", "none", &[], 0)
+            } else {
+                let have: Vec<String> = sh.topics.iter().cloned().collect();
+                let ts_ = if sh.issuers.len() + 1 < MAX_ISSUERS as usize { have } else { vec![pick_s(r, &have)] };
+                mk("add_issuer", &pick_where(r, &sys.u2, &|i| !sh.issuers.contains_key(i)), "none", "none", &ts_, 0)
+            }
+        }
         ("cti", "issuers") => {
             if sh.topics.len() < 3 {
                 mk("add_topic", &pick_where(r, &sys.u1, &|t| !sh.topics.contains(t)), "none", "none", &[], 0)
@@ -1669,18 +1681,18 @@ fn denone(op: &mut Value, sys: &Sys) {
 }
 
 /// the runs of one driver cycle; the two heavy ones reach 10 000 tokens / 5 000 documents
-const CYCLE: [(&str, &str); 17] = [
+const CYCLE: [(&str, &str); 18] = [
     ("keys", "small"), ("cti", "small"), ("binder", "small"), ("docs", "small"), ("irs", "small"), ("modules", "small"),
     ("claims", "small"),
     ("keys", "rpk"), ("keys", "kpt"), ("cti", "topics"), ("cti", "issuers"), ("binder", "bucket"), ("docs", "bucket"),
-    ("modules", "cap"), ("claims", "list"), ("binder", "cap"), ("docs", "cap"),
+    ("modules", "cap"), ("claims", "list"), ("binder", "cap"), ("docs", "cap"), ("cti", "dense"),
 ];
 
 /// calls of the random phase of a run: at least `len`, and enough to cross the limit the regime is about
 /// a few times in both directions
 fn run_len(fl: &str, regime: &str, len: usize) -> usize {
     let need = match (fl, regime) {
-        ("keys", "rpk") | ("keys", "kpt") | ("cti", "topics") | ("cti", "issuers") | ("modules", "cap") => 50,
+        ("keys", "rpk") | ("keys", "kpt") | ("cti", "topics") | ("cti", "issuers") | ("cti", "dense") | ("modules", "cap") => 50,
         ("binder", "bucket") | ("docs", "bucket") => 70,
         ("irs", _) => 70,
         ("claims", "list") => 60,
@@ -1711,6 +1723,11 @@ fn drive_run(r: &mut StdRng, t: &mut Trace, fl: &str, regime: &str, len: usize) 
                 Some(mk("bind_batch", "none", "none", "none", &fresh_of(&sys, &sh, k, 0), 0))
             }
             ("keys", _) => Some(gen_keys(r, &sys, &sh)),
+            ("cti", "dense") if i == fill + 1 => {
+                let all: Vec<String> = sh.topics.iter().cloned().collect();
+                let who = sh.issuers.iter().min_by_key(|x| x.1.len()).map(|x| x.0.clone()).unwrap_or_else(|| sys.u2[0].clone());
+                Some(mk("update_issuer", &who, "none", "none", &all, 0))
+            }
             ("cti", _) => Some(gen_cti(r, &sys, &sh)),
             ("binder", _) => Some(gen_binder(r, &sys, &sh)),
             ("docs", _) => Some(gen_docs(r, &sys, &sh, (i % 1000) as i64)),
